@@ -178,3 +178,30 @@ package ingress
 //@   assume-pre Mapper).Get
 //@   loop 1 entry sorted-copy: $rng(1) == eps
 //@ end
+
+// C06 — host and backend annotations are applied in an order that is a function
+// of the model (never a Go map's): a conflict between two hosts (the same
+// redirect-from, ...) is resolved the same way in every run
+//@ func (*converter).fullSyncAnnotations
+//@   props C06
+//@   no-map-range
+//@ end
+//@ func (*converter).partialSyncAnnotations
+//@   props C06
+//@   no-map-range
+//@ end
+
+// the annotations are applied walking the sorted names; the two loops that
+// range over the maps only collect the names (they call nothing)
+//@ count UpdHost = (annotations.Updater).UpdateHostConfig
+//@ count UpdBack = (annotations.Updater).UpdateBackendConfig
+//@ func (*converter).syncAnnotations
+//@   props C06
+//@   loop 1 invariant collect: calls(UpdHost) == 0 && calls(UpdBack) == 0 && (cap(hostnames) == 0 || fresh(hostnames))
+//@   loop 2 entry sorted-hosts:    $rng(2) == hostnames && forall a int, b int :: 0 <= a && a < b && b < len(hostnames) ==> !(hostnames[b] < hostnames[a])
+//@   loop 2 invariant walk:        calls(UpdBack) == 0
+//@   loop 3 invariant collect:     calls(UpdBack) == 0 && (cap(backendIDs) == 0 || fresh(backendIDs))
+//@   loop 4 entry sorted-backends: $rng(4) == backendIDs && forall a int, b int :: 0 <= a && a < b && b < len(backendIDs) ==> !(backendIDs[b] < backendIDs[a])
+//@   at call UpdateHostConfig#1 assert named:    $arg1 == hosts[hostname]
+//@   at call UpdateBackendConfig#1 assert named: $arg1 == backends[id]
+//@ end
